@@ -84,17 +84,17 @@ type rawCfg struct {
 type rawScn struct {
 	dialer   mangos.Dialer
 	answered int
-	force string        // target (routed) / origin (BUS forwarding) named by the step, instead of a random live pipe
-	el    time.Duration // virtual time elapsed (absolute "advto" steps of TLC-generated scenarios)
-	s     *sim.S
-	cfg   rawCfg
-	sock  mangos.Socket
-	pipes map[string]*vt.Pipe
-	ids   *hx.IDMap
-	npipe int
-	nmsg  int
-	rng   *rand.Rand
-	eff   map[string]interface{}
+	force    string        // target (routed) / origin (BUS forwarding) named by the step, instead of a random live pipe
+	el       time.Duration // virtual time elapsed (absolute "advto" steps of TLC-generated scenarios)
+	s        *sim.S
+	cfg      rawCfg
+	sock     mangos.Socket
+	pipes    map[string]*vt.Pipe
+	ids      *hx.IDMap
+	npipe    int
+	nmsg     int
+	rng      *rand.Rand
+	eff      map[string]interface{}
 }
 
 // every message body ends in "#<tag>"; what precedes it is protocol header material
